@@ -238,3 +238,93 @@ Example c08_example_src_guard :
   (go_EtcdStore_Incr 5 3 0 = (0, go_err_uuid_ErrIDOutOfRange, 5)) /\ (go_EtcdStore_Incr 0 (-4) 0 = (-4, 0, -4)) /\
   (go_EtcdStore_Incr 5 9 77 = (0, 77, 5)).
 Proof. vm_compute. repeat split; reflexivity. Qed.
+
+(* ---------------------------------------------------------------------------------------
+   The WHOLE generator at the source: SeqIDGen.reload, SeqIDGen.Init and the whole of
+   SeqIDGen.Next (fast path AND the slow path through reload), regenerated from x/uuid/seq.go
+   on every run (Generated/SeqID.v; the store call s.store.Incr() external - its answer
+   (counter, error code) is a parameter; fmt.Errorf is the error code 1; the assigned fields
+   counter / lastID follow the results), ARE the model's reload / init / next for every
+   generator state and every answer of the store, int64 wrap-around included, and Model.step
+   on a live generator is the translated method.  (C08/SourceNext.v) *)
+From FV Require Import C08.SourceNext.
+
+Theorem c08_src_reload : forall g a cnt err, answers a cnt err ->
+  go_SeqIDGen_reload (g_counter g) (g_last g) (g_step g) cnt err =
+    (opt_err (fst (reload g a)) err, g_counter (snd (reload g a)), g_last (snd (reload g a))) /\
+  g_step (snd (reload g a)) = g_step g.
+Proof. exact src_reload. Qed.
+Print Assumptions c08_src_reload.
+
+Theorem c08_src_init : forall g a cnt err, answers a cnt err ->
+  go_SeqIDGen_Init (g_counter g) (g_last g) (g_step g) cnt err =
+    (out_err (fst (init g a)) err, g_counter (snd (init g a)), g_last (snd (init g a))) /\
+  g_step (snd (init g a)) = g_step g /\
+  (fst (init g a) = OInitOk <->
+   fst (fst (go_SeqIDGen_Init (g_counter g) (g_last g) (g_step g) cnt err)) = 0).
+Proof. exact src_init. Qed.
+Print Assumptions c08_src_init.
+
+Theorem c08_src_next_whole : forall g a cnt err, answers a cnt err ->
+  go_SeqIDGen_Next (g_last g) (g_counter g) (g_step g) cnt err =
+    (out_val (fst (next g a)), out_err (fst (next g a)) err,
+     g_last (snd (next g a)), g_counter (snd (next g a))) /\
+  g_step (snd (next g a)) = g_step g.
+Proof. exact src_next_whole. Qed.
+Print Assumptions c08_src_next_whole.
+
+(* every pair the store can return is covered: ans_of gives its model answer *)
+Theorem c08_src_answers_total : forall cnt err, answers (ans_of cnt err) cnt err.
+Proof. exact answers_ans_of. Qed.
+Print Assumptions c08_src_answers_total.
+
+Theorem c08_src_next_total : forall g cnt err,
+  go_SeqIDGen_Next (g_last g) (g_counter g) (g_step g) cnt err =
+    (out_val (fst (next g (ans_of cnt err))), out_err (fst (next g (ans_of cnt err))) err,
+     g_last (snd (next g (ans_of cnt err))), g_counter (snd (next g (ans_of cnt err)))).
+Proof. exact src_next_total. Qed.
+Print Assumptions c08_src_next_total.
+
+Theorem c08_src_init_total : forall g cnt err,
+  go_SeqIDGen_Init (g_counter g) (g_last g) (g_step g) cnt err =
+    (out_err (fst (init g (ans_of cnt err))) err,
+     g_counter (snd (init g (ans_of cnt err))), g_last (snd (init g (ans_of cnt err)))).
+Proof. exact src_init_total. Qed.
+Print Assumptions c08_src_init_total.
+
+(* the store's answer reaches the translated Next only when the model says the store is asked *)
+Theorem c08_src_next_store_unused : forall g, needs_reload g = false ->
+  forall c1 e1 c2 e2,
+  go_SeqIDGen_Next (g_last g) (g_counter g) (g_step g) c1 e1 =
+  go_SeqIDGen_Next (g_last g) (g_counter g) (g_step g) c2 e2.
+Proof. exact src_next_store_unused. Qed.
+Print Assumptions c08_src_next_store_unused.
+
+Theorem c08_src_step_next : forall w i sl a cnt err, w i = Some sl -> answers a cnt err ->
+  let '(o, asked, w') := Model.step w (ENext i a) in
+  let '(v, e, last', counter') :=
+    go_SeqIDGen_Next (g_last (s_gen sl)) (g_counter (s_gen sl)) (g_step (s_gen sl)) cnt err in
+  v = out_val o /\ e = out_err o err /\
+  w' i = Some (mkSlot (mkGen (g_step (s_gen sl)) counter' last') (s_ready sl)) /\
+  asked = needs_reload (s_gen sl).
+Proof. exact src_step_next. Qed.
+Print Assumptions c08_src_step_next.
+
+Theorem c08_src_step_init : forall w i sl a cnt err, w i = Some sl -> answers a cnt err ->
+  let '(o, asked, w') := Model.step w (EInit i a) in
+  let '(e, counter', last') :=
+    go_SeqIDGen_Init (g_counter (s_gen sl)) (g_last (s_gen sl)) (g_step (s_gen sl)) cnt err in
+  e = out_err o err /\ (o = OInitOk <-> e = 0) /\
+  w' i = Some (mkSlot (mkGen (g_step (s_gen sl)) counter' last')
+                      (match o with OInitOk => true | _ => s_ready sl end)) /\
+  asked = true.
+Proof. exact src_step_init. Qed.
+Print Assumptions c08_src_step_init.
+
+Example c08_example_src_next_whole :
+  (go_SeqIDGen_Next 4000 1 2000 7 0 = (14001, 0, 14001, 7)) /\
+  (go_SeqIDGen_Next 4000 1 2000 7 55 = (0, 55, 4000, 1)) /\
+  (go_SeqIDGen_Next 3999 1 2000 7 55 = (4000, 0, 4000, 1)) /\
+  (go_SeqIDGen_Next 4000 1 2000 4611686018427387 0 = (0, 1, 9223372036854774000, 4611686018427387)) /\
+  (go_SeqIDGen_Init 0 0 2000 3 0 = (0, 3, 6000)).
+Proof. vm_compute. repeat split; reflexivity. Qed.
